@@ -222,6 +222,7 @@ class MediaWorld(MediaBase):
         self.seen_rtp = set()
         self.late100 = False
         self.jb_seen, self.jb_adds, self.requested_again = {}, 0, set()
+        self.requested_too_late = set()
         self.jb_max = None
         self.n_first = 0
         # decoder seam + origin seams
@@ -564,6 +565,19 @@ class MediaWorld(MediaBase):
             return _orig(packet)
 
         jb.add = add
+        # (observation) a request the sender gets round to only after the packet has left its 128-packet history - NACKs are
+        # handled one after the other, each retransmission awaited, so with sends that suspend a storm of requests after an
+        # outage is worked off seconds late: such a packet is not "still in the sender's history" when it is asked for
+        orig_rt = sender._retransmit
+
+        async def retransmit(seq, _orig=orig_rt):
+            known = self.first_tx.get(seq)
+            if known is not None and len(self.first_tx) - known[2] > 128:
+                self.requested_too_late.add(seq)
+                self.probes["requests_handled_after_the_packet_left_the_history"] += 1
+            return await _orig(seq)
+
+        sender._retransmit = retransmit
         orig_next = sender._next_encoded_frame
 
         async def next_frame(codec, _orig=orig_next):
@@ -628,6 +642,32 @@ class MediaWorld(MediaBase):
                 return
             self.probes["live_frames_judged_after_a_discard"] += 1
         missing = [k for k in range(first, self.n_real) if k not in got]
+        if missing and missing == list(range(min(missing), self.n_real)) and self.cfg.get("turn"):
+            # the last frames, without a gap: when all their packets did reach the jitter buffer they are complete and wait
+            # there for further arrivals to be released (one frame per add(), known finding C10) - with sends that suspend,
+            # a storm of repairs after an outage is worked off seconds late and the keep-alive tail of the run is too short
+            # to drain that backlog; every packet *was* recovered
+            by_idx = {v[2]: q for q, v in self.first_tx.items()}
+            start, waiting = sum(len(fr["chunks"]) for fr in self.sent[:min(missing)]), []
+            for k in range(min(missing), self.n_real):
+                qs = [by_idx.get(i) for i in range(start, start + len(self.sent[k]["chunks"]))]
+                start += len(self.sent[k]["chunks"])
+                if k in missing and all(q in self.jb_seen for q in qs):
+                    waiting.append(k)
+            if waiting:
+                self.exempt["last_frames_complete_in_the_jitter_buffer_when_the_run_ended"] += len(waiting)
+                missing = [k for k in missing if k not in waiting]
+        if missing and self.requested_too_late:
+            # (the packets of frame k: first transmissions number sum(packets of earlier frames) onwards)
+            by_idx = {v[2]: q for q, v in self.first_tx.items()}
+            start, of_frame = 0, {}
+            for k2, fr in enumerate(self.sent):
+                of_frame[k2] = [by_idx.get(i) for i in range(start, start + len(fr["chunks"]))]
+                start += len(fr["chunks"])
+            late = [k for k in missing if any(q in self.requested_too_late for q in of_frame.get(k, ()))]
+            if late:
+                self.exempt["frame_with_a_packet_requested_after_it_left_the_history"] += len(late)
+                missing = [k for k in missing if k not in late]
         if missing:
             self.violation("C11", "lost-packet-not-recovered-although-feedback-and-retransmissions-get-through",
                            "frames never delivered to the decoder: %r (of %d); retransmissions sent: %d; nacks: %d" % (
